@@ -196,6 +196,11 @@ func (x *Exec) execInstr(fr *Frame, st *State, ins ssa.Instruction) {
 	case *ssa.Defer:
 		fr.defers = append(fr.defers, t)
 		st.dflags[t] = "true"
+		if fr.depth == 0 && fr.contract != nil && len(fr.contract.OnDefer) > 0 {
+			if effs, ok := fr.contract.OnDefer[dynCallName(t.Common())]; ok {
+				x.applyGhostEffects(fr, st, effs, "true", nil)
+			}
+		}
 	case *ssa.RunDefers:
 		x.runDefers(fr, st)
 	case *ssa.Call:
